@@ -38,7 +38,7 @@ impl<T: bech32::Checksum> Api for MockApiBech<T> {
 
     fn addr_canonicalize(&self, input: &str) -> StdResult<CanonicalAddr> {
         if let Ok(s) = CheckedHrpstring::new::<T>(input) {
-            if s.hrp().to_string() == self.prefix {
+            if Hrp::parse(self.prefix).is_ok_and(|hrp| hrp == s.hrp()) {
                 return Ok(s.byte_iter().collect::<Vec<u8>>().into());
             }
         }
